@@ -20,6 +20,7 @@
 //!   xc,<tx>,<seq>,<k>,<cnt>,<v> ConfirmTransaction to X; v: g good | i a wrong second event id | n unknown first id | s one id too few
 //!   xR                          ResetCluster on X (volatile state rebuilt from disk)   [restart family: runs alone]
 //!   yR                          stop Y's replicator and start a new one
+//!   xpad,<kib>                  <kib> KiB of filler appended to X's disk in the same bucket (other partition)
 //!   b                           barrier + snapshot of both logs
 //! After every op, if Y has unanswered writes (a gap), the harness waits until Y's catch-up has gone quiet.
 //! observed:  res=<tok>;..  X=<log> Y=<log> W=<events visible through X's ReadPartition after a restart>
@@ -129,6 +130,7 @@ fn wcode(e: &WriteError) -> String {
 
 struct Shared {
     rf: u8,
+    parts: u16,
     dbx: Database,
     dby: Database,
     cluster: ActorRef<ClusterActor>,
@@ -161,7 +163,20 @@ fn parse_case(idx: usize, pid: u16, line: &str) -> Option<Case> {
     Some(Case { idx, pid, limit, n0x, n0y, ops, restart, txs: HashMap::new(), ids: HashMap::new() })
 }
 
+/// One partition's log as the disk holds it: structure (first sequence, transaction, events) from a scan; the
+/// confirmation counts from `read_transaction` (a direct read of the records). A scan goes through the segment block
+/// cache, which `set_confirmations` does not invalidate, so it can show an OLDER count: when it does, the entry is
+/// marked `~<scan count>` (known finding; the count on disk is the one before the mark).
 async fn read_log(db: &Database, pid: u16, ids: &HashMap<Uuid, u64>) -> Result<(String, u64), String> {
+    fn fmt(counts: &[u8]) -> String {
+        if counts.iter().all(|&x| x == counts[0]) { counts[0].to_string() } else { counts.iter().map(|x| x.to_string()).collect::<Vec<_>>().join(".") }
+    }
+    fn counts_of(c: sierradb::bucket::segment::CommittedEvents) -> Vec<u8> {
+        let ccount = c.confirmation_count();
+        let mut counts: Vec<u8> = c.into_iter().map(|e| e.confirmation_count).collect();
+        if counts.iter().any(|&x| x != ccount) || counts.is_empty() { counts.push(ccount); } // the commit record differs: show it too
+        counts
+    }
     let mut log = Vec::new();
     let mut next = 0u64;
     let mut it = db.read_partition(pid, 0, IterDirection::Forward).await.map_err(|e| format!("read: {e}"))?;
@@ -172,11 +187,14 @@ async fn read_log(db: &Database, pid: u16, ids: &HashMap<Uuid, u64>) -> Result<(
             next = next.max(last + 1);
             let tx = ids.get(c.transaction_id()).map(|t| t.to_string()).unwrap_or_else(|| "?".into());
             let n = c.len();
-            let ccount = c.confirmation_count();
-            let mut counts: Vec<u8> = c.into_iter().map(|e| e.confirmation_count).collect();
-            if counts.iter().any(|&x| x != ccount) || counts.is_empty() { counts.push(ccount); } // commit record differs: show it too
-            let cs = if counts.iter().all(|&x| x == counts[0]) { counts[0].to_string() } else { counts.iter().map(|x| x.to_string()).collect::<Vec<_>>().join(".") };
-            log.push(format!("{first}:{tx}:{n}:{cs}"));
+            let first_id = c.first().ok_or("empty commit")?.event_id;
+            let scan = counts_of(c);
+            let direct = match db.read_transaction(pid, first_id).await.map_err(|e| format!("read_transaction: {e}"))? {
+                Some(d) if d.first_partition_sequence() == Some(first) && d.len() == n => counts_of(d),
+                _ => scan.clone(), // the id index points at a newer copy of the same event: keep what the scan shows
+            };
+            let mark = if direct != scan { format!("~{}", fmt(&scan)) } else { String::new() };
+            log.push(format!("{first}:{tx}:{n}:{}{mark}", fmt(&direct)));
         }
     }
     Ok((if log.is_empty() { "-".into() } else { log.join(",") }, next))
@@ -423,6 +441,28 @@ impl<'a> Run<'a> {
                     Err(_) => "timeout".into(),
                 });
             }
+            "xpad" => {
+                // filler in the same bucket (another partition id, beyond the cluster's): completes the 64 KiB blocks that
+                // hold this case's records, so that scans read them through the segment block cache
+                let kib = num(arg(1)?)?;
+                let fp = self.sh.parts + ((self.c.pid % BUCKETS) + BUCKETS - (self.sh.parts % BUCKETS)) % BUCKETS;
+                let pk = key_for(fp);
+                let hash = uuid_to_partition_hash(pk);
+                for j in 0..kib {
+                    let ev = NewEvent {
+                        event_id: uuid_v7_with_partition_hash(hash),
+                        stream_id: StreamId::new(format!("pad{}c{}n{}j{j}", fp, self.c.idx, self.nbar)).unwrap(),
+                        stream_version: ExpectedVersion::Any,
+                        event_name: "P".into(),
+                        timestamp: 1,
+                        metadata: vec![],
+                        payload: vec![7u8; 1024],
+                    };
+                    let t = Transaction::new(pk, fp, SmallVec::from_vec(vec![ev])).map_err(|e| e.to_string())?;
+                    self.sh.dbx.append_events(t).await.map_err(|e| format!("pad: {e}"))?;
+                }
+                self.toks[i] = Some("-".into());
+            }
             "xR" => {
                 self.barrier(false).await?;
                 self.sh.cluster.ask(ResetCluster { database: self.sh.dbx.clone() }).await.map_err(|e| format!("reset: {e}"))?;
@@ -473,6 +513,9 @@ async fn final_obs(sh: &Shared, c: &Case, res: &str) -> Result<String, String> {
         Ok(r) => r.events.len().to_string(),
         Err(e) => format!("ERR({})", e.to_string().replace([' ', '\t', '\n'], "_")),
     };
+    if std::env::var_os("C10_TIMING").is_some() {
+        eprintln!("cache hits {} misses {}", sierradb::cache::SegmentBlockCache::cache_hits(), sierradb::cache::SegmentBlockCache::cache_misses());
+    }
     Ok(format!("res={res} X={x} Y={y} W={w}"))
 }
 
@@ -481,7 +524,7 @@ fn open_db(dir: &std::path::Path) -> Result<Database, String> {
         .segment_size_bytes(8 * 1024 * 1024)
         .total_buckets(BUCKETS)
         .bucket_ids_from_range(0..BUCKETS)
-        .reader_threads(2)
+        .reader_threads(1) // one reader: a count written through one reader is not seen through another reader's read-ahead (known finding of C18)
         .writer_threads(2)
         .min_sync_bytes(0)
         .open(dir)
@@ -541,13 +584,13 @@ async fn child_run(rf: u8, lines: Vec<String>) -> Result<Vec<(String, String)>, 
     let fid = kameo::actor::ActorId::new_with_peer_id(7, Keypair::generate_ed25519().public().to_peer_id());
     let foreign = rmp_serde::to_vec(&(fid,)).ok().and_then(|b| rmp_serde::from_slice::<RemoteActorRef<ClusterActor>>(&b).ok());
     if foreign.is_none() { return Err("cannot build a foreign coordinator ref".into()); }
-    let sh = Arc::new(Shared { rf, dbx: dbx.clone(), dby: dby.clone(), cluster: cluster.clone(), coord, foreign, confy });
+    let sh = Arc::new(Shared { rf, parts, dbx: dbx.clone(), dby: dby.clone(), cluster: cluster.clone(), coord, foreign, confy });
 
     // phase 1: all cases without a restart run concurrently, each on its own partition
     let mut results: HashMap<usize, Result<String, String>> = HashMap::new();
     let mut handles = Vec::new();
     let mut restart_cases = Vec::new();
-    let sem = Arc::new(tokio::sync::Semaphore::new(40)); // cases in flight (each has a replicator polling X)
+    let sem = Arc::new(tokio::sync::Semaphore::new(16)); // cases in flight (each has a replicator polling X)
     for c in cases.drain(..) {
         if c.restart { restart_cases.push(c); continue; }
         let sh2 = sh.clone();
